@@ -97,11 +97,18 @@ func serverType(genpkg string, svc *expr.HTTPServiceExpr, _ map[string]struct{})
 	}
 
 	// response body types
+	// generated records the response body types already rendered in this file.
+	// It is local to this call: the service data is cached and shared by all
+	// the generators so it must not be mutated.
+	generated := make(map[string]struct{})
 	for _, a := range svc.HTTPEndpoints {
 		adata := data.Endpoint(a.Name())
 		for _, resp := range adata.Result.Responses {
 			for _, tdata := range resp.ServerBody {
-				if generated, ok := data.ServerTypeNames[tdata.Name]; ok && !generated {
+				if _, ok := data.ServerTypeNames[tdata.Name]; !ok {
+					continue
+				}
+				if _, ok := generated[tdata.Name]; !ok {
 					if tdata.Def != "" {
 						sections = append(sections, &codegen.SectionTemplate{
 							Name:   "response-server-body",
@@ -115,7 +122,7 @@ func serverType(genpkg string, svc *expr.HTTPServiceExpr, _ map[string]struct{})
 					if tdata.ValidateDef != "" {
 						validatedTypes = append(validatedTypes, tdata)
 					}
-					data.ServerTypeNames[tdata.Name] = true
+					generated[tdata.Name] = struct{}{}
 				}
 			}
 		}
